@@ -24,7 +24,7 @@ REQUIRED = ['Ems.C09.renumber_spec', 'Ems.C09.renumber_in_range', 'Ems.C09.renum
             'Ems.C09.compress_get', 'Ems.C09.polygon_preserved', 'Ems.C09.select_variables_geometry',
             'Ems.C09.updated_row', 'Ems.C09.updated_entry', 'Ems.C09.newIndex_injective',
             'Ems.C09.tables_agree_after_clip', 'Ems.C09.reference_followed', 'Ems.C09.referencedBy_spec',
-            'Ems.C09.no_reference_lost']
+            'Ems.C09.no_reference_lost', 'Ems.C09.clip_polygons_end_to_end']
 RULE = ('datasets of every convention with explicitly stored geometry (CF 1-D stored bounds, CF 2-D / SHOC simple stored '
         '4-corner bounds, SHOC standard node grids, UGRID meshes 0/1-based x NaN / _FillValue attribute / no fill x normal / '
         'transposed x every subset of edge_node / face_edge / edge_face / face_face), coordinates as xarray coordinates or plain '
